@@ -653,11 +653,16 @@ impl DbGen {
 
     /// a batch; `invalid_pct` of the operations ignore validity (missing tasks, double creates)
     pub fn batch(&mut self, cur: &Tasks, pools: &Pools, max: usize, invalid_pct: usize, status_bias: usize) -> Vec<LOp> {
+        self.batch_n(cur, pools, max, invalid_pct, status_bias, 3)
+    }
+
+    /// the same over the first `nu` uuids
+    pub fn batch_n(&mut self, cur: &Tasks, pools: &Pools, max: usize, invalid_pct: usize, status_bias: usize, nu: usize) -> Vec<LOp> {
         let mut t = cur.clone();
         let mut out = vec![];
         let k = self.rng.range(1, max);
         for _ in 0..k {
-            let u = self.rng.below(NUUID.min(3));
+            let u = self.rng.below(NUUID.min(nu));
             let wild = self.rng.chance(invalid_pct);
             let kind = self.rng.below(10);
             let o = if (!t.contains_key(&u) && !wild) || (wild && kind < 2) {
@@ -688,6 +693,18 @@ pub fn gen_db(seed: u64, id: usize, sqlite: bool, focus: &str, maxlen: usize) ->
         "undo" => (0, 25),
         _ => (5, 60),
     };
+    if focus == "ws" && rng.chance(80) {
+        // start from several pending tasks, so that working sets with inner entries occur
+        let pools = db_pools();
+        let st = pools.prop_index("status").unwrap();
+        let n0 = rng.range(2, 5);
+        let mut ops = vec![];
+        for u in 0..n0 {
+            ops.push(LOp::Create(u));
+            ops.push(LOp::Update(u, st, None, pools.value_index(if rng.chance(80) { "pending" } else { "recurring" }), 1_000_000_000));
+        }
+        r.perform(&DAct::Commit(ops));
+    }
     for _ in 0..k {
         let c = rng.below(100);
         let cur = r.db.view().tasks;
@@ -725,8 +742,20 @@ pub fn gen_db(seed: u64, id: usize, sqlite: bool, focus: &str, maxlen: usize) ->
                 }
             }
             _ => {
-                if c < 45 {
-                    DAct::Commit(g.batch(&cur, &pools, 3, invalid_pct, status_bias))
+                let view = r.db.view();
+                let inner: Vec<usize> = view.ws.iter().take(view.ws.len().saturating_sub(1)).flatten().copied().collect();
+                if c < 14 && !inner.is_empty() {
+                    // take a task that is not the last entry out of the working set: completed, or
+                    // deleted outright, so that the next rebuild starts from a gap or a dangling entry
+                    let u = inner[rng.below(inner.len())];
+                    let st = pools.prop_index("status").unwrap();
+                    if rng.chance(60) {
+                        DAct::Commit(vec![LOp::Update(u, st, view.tasks.get(&u).and_then(|t| t.get(&st)).copied(), pools.value_index("completed"), 5_000_000_000)])
+                    } else {
+                        DAct::Commit(vec![LOp::Delete(u, view.tasks.get(&u).cloned().unwrap_or_default())])
+                    }
+                } else if c < 45 {
+                    DAct::Commit(g.batch_n(&cur, &pools, 3, invalid_pct, status_bias, 5))
                 } else if c < 75 {
                     DAct::Rebuild(rng.chance(45))
                 } else if c < 85 {
